@@ -751,6 +751,31 @@ func (e *Env) call(n *ECall) (Val, types.Type) {
 	case "isnan":
 		t := argT(0)
 		return Term{"(fp.isNaN " + t.S + ")", BoolSort()}, nil
+	case "isinf":
+		t := argT(0)
+		return Term{"(fp.isInfinite " + t.S + ")", BoolSort()}, nil
+	case "signbit":
+		// sign of a float; a NaN has none (SMT-LIB has a single NaN, as Go's spec does not distinguish NaNs)
+		t := argT(0)
+		return Term{"(fp.isNegative " + t.S + ")", BoolSort()}, nil
+	case "fabs":
+		t := argT(0)
+		return Term{"(fp.abs " + t.S + ")", t.Sort}, nil
+	case "fneg":
+		t := argT(0)
+		return Term{"(fp.neg " + t.S + ")", t.Sort}, nil
+	case "fsame":
+		// same floating-point datum: both NaN, or identical including the sign of zero
+		a, b := argT(0), argT(1)
+		return Term{"(= " + a.S + " " + b.S + ")", BoolSort()}, nil
+	case "real", "imag":
+		if sv, ok := arg(0).(*StructVal); ok && len(sv.F) == 2 {
+			if name == "real" {
+				return sv.F[0], nil
+			}
+			return sv.F[1], nil
+		}
+		e.fail("%s needs a complex value", name)
 	case "memhash64":
 		a, b := argT(0), argT(1)
 		return Term{app("mh64", a, b), BV(64, false)}, nil
@@ -961,6 +986,17 @@ func (sl *SpecLib) Load(path string, text string) error {
 	sl.Prelude = append(sl.Prelude, text)
 	for _, line := range strings.Split(text, "\n") {
 		line = strings.TrimSpace(line)
+		if strings.HasPrefix(line, ";; const ") {
+			f := strings.Fields(line[9:])
+			if len(f) != 2 {
+				return fmt.Errorf("%s: bad const %q", path, line)
+			}
+			cs, err := parseSortAbbrev(f[1])
+			if err != nil {
+				return fmt.Errorf("%s: %v", path, err)
+			}
+			sl.Consts[f[0]] = Term{f[0], cs}
+		}
 		if strings.HasPrefix(line, ";; sig ") {
 			rest := strings.TrimSpace(line[7:])
 			i, j := strings.Index(rest, "("), strings.LastIndex(rest, ")")
